@@ -1,14 +1,15 @@
 #!/bin/bash
-# processes "PROP K" lines of /tmp/seed/queue.txt; several workers can run (claims via mkdir lock)
-mkdir -p /tmp/seed/claims; touch /tmp/seed/queue.txt
+# usage: confirm_queue.sh [root=/tmp/seed2] [offset=2]: processes "PROP K" lines of <root>/queue.txt; several workers can run (claims via mkdir)
+R=${1:-/tmp/seed2}; OFF=${2:-2}
+mkdir -p $R/claims; touch $R/queue.txt
 while true; do
   did=0
   while read -r P K; do
     [ -z "$P" ] && continue
-    if mkdir /tmp/seed/claims/$P-$K 2>/dev/null; then
-      /verif/bin/confirm_seed.sh $P $K >> /tmp/seed/confirm.log 2>&1
-      echo "$P $K" >> /tmp/seed/done.txt; did=1; break
+    if mkdir $R/claims/$P-$K 2>/dev/null; then
+      /verif/bin/confirm_seed.sh $P $K $R $OFF >> $R/confirm.log 2>&1
+      echo "$P $K" >> $R/done.txt; did=1; break
     fi
-  done < /tmp/seed/queue.txt
+  done < $R/queue.txt
   [ $did = 0 ] && sleep 20
 done
